@@ -642,7 +642,9 @@ class MappingSchema(AbstractMappingSchema, Schema):
 
         dialect = dialect or self.dialect
         name_str = name if isinstance(name, str) else name.name
-        cache_key = (name_str, dialect, is_table, normalize)
+        # A quoted identifier normalizes differently from an unquoted one of the same text, and a string is parsed first
+        quoted = None if isinstance(name, str) else bool(name.args.get("quoted"))
+        cache_key = (name_str, quoted, dialect, is_table, normalize)
 
         if cached := self._normalized_name_cache.get(cache_key):
             return cached
